@@ -639,6 +639,17 @@ _NAMED = ['red', 'green', 'blue', 'black', 'white', 'transparent', 'orange', 'aq
 _IDENTS = ['a', 'b', 'div', 'span', 'p', 'h1', 'li', 'foo', 'bar', 'x', 'item', 'main', 'Body', 'TD', 'em', 'svg',
            'circle']
 _NAMES = ['a', 'b', 'foo', 'bar-baz', 'x1', '_u', '-m', 'Cls', 'nav', 'active']
+# identifiers that look like another token class: they are used at EVERY identifier position (type selectors, ids,
+# classes, attribute names and ident values, value idents, @page names, unknown at-rule contents)
+_HEXLIKE = ['abc', 'fff', 'aabbcc', 'ffffff', 'AABBCC', 'aAbBcC', 'ddeeff', 'abcdef', 'aabbccdd', 'deadbeef', 'bbb',
+            'eeeeee', 'a1b2c3', 'facade', 'c0ffee', 'xxyyzz', 'ee11ee', 'aabbc', 'ffeedd']
+_HEXLIKE_DIGIT = ['001122', '000', '112233', '123', '1a2b3c', '09f', '00ff00', '11223344']     # HASH only (ids)
+_NUMLIKE = ['e3', 'E5', 'n', '-n', 'x10', '_1', '-e1', 'n-1', 'e-3']
+_UNITLIKE = ['px', 'em', 'deg', 's', 'ms', 'hz', 'dpi', 'fr', 'PX']
+_KEYWORDLIKE = ['important', 'and', 'not', 'only', 'or', 'url', 'all', 'inherit', 'initial', 'none', 'odd', 'even', 'from',
+                'to', 'media', 'import', 'charset', 'U', 'u', 'progid', 'calc', 'rgb', 'attr', 'of', 'min-width', 'AND']
+_COLOURLIKE = ['red', 'Blue', 'transparent', 'currentColor', 'gray', 'rebeccapurple']
+_ESCAPED = ['a\\:b', 'a\\.b', '\\31 0', '\\31 px', 'x\\(y', '\\#a', 'a\\ b', '\\e9 t', '\xe9', 'a\\+b', '\\-a', 'a\\/b']
 _ATTRS = ['href', 'title', 'lang', 'class', 'data-x', 'type', 'HREF']
 _PCLASS = ['hover', 'link', 'visited', 'active', 'focus', 'first-child', 'last-child', 'only-child', 'empty',
            'root', 'target', 'enabled', 'disabled', 'checked', 'first-of-type', 'HOVER']
@@ -674,6 +685,7 @@ TRIGGERS = (
     'calc-space',         # calc() written without the canonical single spaces around operators / with padding,
                           # or any calc() inside a @page margin box (its white space tokens are stripped)
     'calc-ratio',         # calc(... <int-after-normalisation> / <int>): the serialised text ends in a RATIO token
+    'ident-escape',       # identifiers spelled with escapes (a\\:b, \\31 0) at selector / value positions
     'unknown-hash',       # #AABBCC inside an unknown at-rule
     'unknown-slash-star', # '/ *' inside an unknown at-rule
     'pseudo-space',       # white space after '(' or before ')' of a functional pseudo-class
@@ -699,6 +711,29 @@ class _Gen(object):
 
     def no(self, trigger):
         return trigger in self.avoid
+
+    def confusable(self, kind='ident'):
+        """an identifier that looks like another token class; kind 'id' may also start with a digit (HASH token)"""
+        x = self.r.random()
+        if x < 0.40:
+            pool = _HEXLIKE + (_HEXLIKE_DIGIT if kind == 'id' else [])
+        elif x < 0.52:
+            pool = _NUMLIKE
+        elif x < 0.64:
+            pool = _UNITLIKE
+        elif x < 0.82:
+            pool = _KEYWORDLIKE
+        elif x < 0.90 or self.no('ident-escape'):
+            pool = _COLOURLIKE
+        else:
+            pool = _ESCAPED
+        return self.pick(pool)
+
+    def name(self, pool, kind='ident', p=0.25):
+        "a name from the ordinary pool, or (probability p) a confusable one"
+        if self.chance(p):
+            return self.confusable(kind)
+        return self.pick(pool)
 
     # ---- layout helpers
     def chance(self, p):
@@ -1005,8 +1040,8 @@ class _Gen(object):
     def term(self):
         x = self.r.random()
         if x < 0.14:
-            return self.pick(['auto', 'none', 'inherit', 'solid', 'bold', 'serif', 'Arial', 'initial', 'left',
-                              'center', 'open-quote', 'x-large', 'NONE', '-moz-box', 'sans-serif', '_x', 'a1-b2'])
+            return self.name(['auto', 'none', 'inherit', 'solid', 'bold', 'serif', 'Arial', 'initial', 'left',
+                              'center', 'open-quote', 'x-large', 'NONE', '-moz-box', 'sans-serif', '_x', 'a1-b2'], p=0.2)
         if x < 0.26:
             return self.number()
         if x < 0.40:
@@ -1238,16 +1273,16 @@ class _Gen(object):
     def typesel(self):
         if self.chance(0.2):
             return self.nsprefix() + '*'
-        return self.nsprefix() + self.pick(_IDENTS)
+        return self.nsprefix() + self.name(_IDENTS, p=0.15)
 
     def attrib(self):
         o = self.ws() if self.chance(0.2) else ''
-        name = self.nsprefix(attr=True) + self.pick(_ATTRS)
+        name = self.nsprefix(attr=True) + self.name(_ATTRS, p=0.15)
         if self.chance(0.25):
             return '[' + o + name + o + ']'
         op = self.pick(['=', '~=', '|=', '^=', '$=', '*='])
         if self.chance(0.5):
-            val = self.pick(['x', 'en', 'foo', 'a-b', 'EN', '_v'])
+            val = self.name(['x', 'en', 'foo', 'a-b', 'EN', '_v'])
         else:
             val = self.string()
         o2 = self.ws() if self.chance(0.2) else ''
@@ -1274,9 +1309,9 @@ class _Gen(object):
     def simple(self, in_not=False):
         x = self.r.random()
         if x < 0.25:
-            return '#' + self.pick(_NAMES[:8])
+            return '#' + self.name(_NAMES[:8], 'id', 0.35)
         if x < 0.60:
-            return '.' + self.pick(_NAMES)
+            return '.' + self.name(_NAMES, p=0.3)
         if x < 0.78:
             return self.attrib()
         return self.pseudo(in_not)
@@ -1381,7 +1416,7 @@ class _Gen(object):
         elif x < 0.65:
             sel = ' :' + self.pick(['first', 'left', 'right'])
         elif x < 0.85:
-            sel = ' ' + self.pick(['name', 'cover', 'Chapter'])
+            sel = ' ' + self.name(['name', 'cover', 'Chapter'])
         else:
             sel = ' ' + self.pick(['name', 'toc']) + ':' + self.pick(['first', 'left', 'right'])
         extra = []
@@ -1397,6 +1432,10 @@ class _Gen(object):
         return self.case('@font-face') + self.ws() + self.cm(0.03) + '{' + self.block('fontface', 1, 4) + '}'
 
     def unknown_rule(self):
+        if self.chance(0.2):
+            body = ' '.join(('#' if self.chance(0.3) and not self.no('unknown-hash') else '') + self.confusable()
+                            for _ in range(self.r.randrange(1, 4)))
+            return '@' + self.pick(['foo', 'x-y']) + ' ' + body + self.pick([';', ' { a: b }'])
         return self.pick(['@foo bar;', '@foo {a:b}', '@three-dee { a { b: c } }', '@foo "str" url(x) 12px;',
                           '@-moz-document url-prefix() { a { color: red } }', '@bar x, y (z) [w];',
                           "@foo 'it' 1.50em #AABBCC;", '@keyframes k { from { top: 0px } to { top: 10.50px } }',
